@@ -663,7 +663,7 @@ func structuredCase(t *mon.T) {
 		}
 		t.Fail("bigint-differs-from-mathbig", map[string]interface{}{"method": name, "args": as, "why": why})
 	}
-	switch r.Intn(5) {
+	switch r.Intn(6) {
 	case 0: // Sqrt at k^2 + {-1, 0, 1}
 		sq := new(big.Int).Mul(k, k)
 		for _, d := range []int64{-1, 0, 1} {
@@ -772,7 +772,67 @@ func structuredCase(t *mon.T) {
 			fail("Exp/GCD", "differs from math/big", k, e, m)
 		}
 		t.Nontrivial("exp|" + k.String() + "|" + m.String())
+	case 5: // primality: the composites every shortcut of a primality test is known to trip over
+		var v *big.Int
+		switch r.Intn(4) {
+		case 0:
+			v, _ = new(big.Int).SetString(pseudoprimes[r.Intn(len(pseudoprimes))], 10)
+		case 1: // p*q with q = 2p-1 or p, q close (strong pseudoprime shapes), squares of primes
+			pp := new(big.Int).Set(k)
+			for !pp.ProbablyPrime(10) {
+				pp.Add(pp, bOne)
+			}
+			q := new(big.Int).Sub(new(big.Int).Lsh(pp, 1), bOne)
+			if r.Bool() {
+				q.Set(pp)
+			}
+			v = new(big.Int).Mul(pp, q)
+		case 2: // a prime near k, or its neighbour
+			v = new(big.Int).Set(k)
+			for !v.ProbablyPrime(10) {
+				v.Add(v, bOne)
+			}
+			if r.Chance(1, 4) {
+				v.Add(v, big.NewInt(2))
+			}
+		default:
+			v = new(big.Int).Set(k)
+		}
+		if r.Chance(1, 8) {
+			v.Neg(v)
+		}
+		a := mk(v)
+		if r.Bool() { // the same value with a heap-backed history
+			a.Lsh(a, 200)
+			a.Rsh(a, 200)
+		}
+		for _, n := range []int{0, 1, 2, 20} {
+			t.Eval()
+			if got, want := a.ProbablyPrime(n), v.ProbablyPrime(n); got != want {
+				fail("ProbablyPrime", fmt.Sprintf("n=%d: got %v, math/big says %v", n, got, want), v)
+			}
+		}
+		t.Count("structured/Primality")
+		t.Nontrivial("prime|" + v.String())
 	}
+}
+
+// pseudoprimes: the smallest strong pseudoprimes to the first k prime bases
+// (psi_1..psi_12), Carmichael numbers, base-2 Fermat and strong pseudoprimes,
+// Lucas and strong Lucas pseudoprimes, and a few primes at the word boundaries.
+var pseudoprimes = []string{
+	"2047", "1373653", "25326001", "3215031751", "2152302898747", "3474749660383", "341550071728321", "3825123056546413051",
+	"318665857834031151167461", "3317044064679887385961981",
+	"561", "1105", "1729", "2465", "2821", "6601", "8911", "10585", "15841", "29341", "41041", "46657", "52633", "62745", "63973", "75361",
+	"101101", "115921", "126217", "162401", "172081", "188461", "252601", "278545", "294409", "314821", "334153", "340561", "399001", "410041",
+	"341", "645", "1387", "1905", "2701", "3277", "4033", "4369", "4371", "4681", "5461", "7957", "8321", "8481", "13747", "14491", "15709",
+	"42799", "49141", "65281", "74665", "80581", "85489", "88357", "90751", "104653", "130561", "196093", "220729", "233017", "252601", "253241",
+	"323", "377", "1159", "1829", "3827", "5459", "5777", "9071", "9179", "10877", "11419", "11663", "13919", "14839", "16109", "16211", "18407",
+	"5459", "5777", "10877", "16109", "18971", "22499", "24569", "25199", "40309", "58519", "75077", "97439", "100127", "113573", "115639", "130139",
+	"4759123141", "1122004669633", "4294967291", "4294967311", "4294967297", "18446744073709551557", "18446744073709551629", "18446744073709551617",
+	"2147483647", "2305843009213693951", "618970019642690137449562111", "170141183460469231731687303715884105727",
+	"9223372036854775783", "9223372036854775837", "340282366920938463463374607431768211297", "340282366920938463463374607431768211507",
+	"1194649", "12327121", "3215031751", "118670087467", "307768373641", "315962312077", "354864744877", "457453568161", "528929554561",
 }
 
 // nilAndMalformedCase: the printing methods on a nil receiver and the decoders
@@ -818,7 +878,7 @@ func nilAndMalformedCase(t *mon.T) {
 	mkB := func() *big.Int { return new(big.Int).Set(start) }
 	damage := func(b []byte) []byte {
 		b = append([]byte{}, b...)
-		switch r.Intn(5) {
+		switch r.Intn(6) {
 		case 0:
 			if len(b) > 0 {
 				b[r.Intn(len(b))] ^= byte(1 + r.Intn(255))
@@ -890,7 +950,7 @@ func runC16(r *mon.Run) {
 		"negative zero, inline words equal |value|, no shared heap big.Int); sequences run in fresh goroutines with deep recursion and GC " +
 		"cycles, and values obtained through MathBigInt must stay stable. A second family makes single calls on operands built on the " +
 		"numeric boundaries of each algorithm (k^2 and its neighbours for Sqrt with k of 1..600 bits, q*y+{0,1,y-1} for the division " +
-		"family, products at the word boundaries, base^n and its neighbours for text conversion); a third compares the printing methods on a nil receiver and the decoders (Gob, text, JSON, SetString) on damaged encodings. distinct_nontrivial = distinct (method, operand values) that changed a slot."
+		"family, products at the word boundaries, base^n and its neighbours for text conversion, and for ProbablyPrime the classical pseudoprimes - strong pseudoprimes to the first prime bases, Carmichael numbers, Fermat and Lucas pseudoprimes, products p(2p-1) and p^2, primes at the word boundaries - in inline and heap-backed form); a third compares the printing methods on a nil receiver and the decoders (Gob, text, JSON, SetString) on damaged encodings. distinct_nontrivial = distinct (method, operand values) that changed a slot."
 	r.Assumptions = []string{"math/big.Int is the specification", "calls outside math/big's documented domain (division by zero, negative Sqrt, QuoRem with r aliasing y or z) are skipped"}
 	r.Parallel("sequences", r.N(8000, 1200000), func(t *mon.T) {
 		done := make(chan struct{})
@@ -935,7 +995,7 @@ func runC16(r *mon.Run) {
 	for _, bm := range bigMethods {
 		r.Require("bigint/"+bm.name, 200)
 	}
-	for _, k := range []string{"structured/Sqrt", "structured/Division", "structured/MulAddSub", "structured/Text", "structured/ExpGCD"} {
+	for _, k := range []string{"structured/Sqrt", "structured/Division", "structured/MulAddSub", "structured/Text", "structured/ExpGCD", "structured/Primality"} {
 		r.Require(k, 1000)
 	}
 	for _, k := range []string{"bigint-repr/heap", "bigint-repr/inline", "bigint-repr/inline-neg"} {
